@@ -9,6 +9,7 @@ Oracle (bit-exact): final state, every extra-state tensor, every output time sha
 concatenated request trace of the surviving attempts equals the one-shot trace.
 """
 import copy
+import pickle
 
 import torch
 
@@ -37,7 +38,8 @@ REAL_VS_STUB = {"real": ["sdeint, check_contract, BaseSDESolver.integrate, all s
                          "SDE zoo drift/diffusion with crash points"]}
 PROBES = ("ts_dtype_differs", "logqp_runs", "logqp_increments_compared", "chunks_total", "chunks_ge_4", "crash_fired_f", "crash_fired_g", "crash_fired_bm", "crash_not_reached",
           "extra_state_carried", "negative_control_differs", "negative_control_same", "intermediate_outputs",
-          "real_bm", "stub_bm", "f32", "final_step_clipped")
+          "real_bm", "stub_bm", "f32", "final_step_clipped", "durable_pickle", "fresh_sde_per_attempt", "via_sdeint_adjoint",
+          "restart_at_every_grid_point", "chunk_ts_as_list")
 STATE_MEASURE = "distinct (solver, noise type, steps, cut pattern, crash pattern) tuples"
 
 
@@ -75,7 +77,18 @@ def gen_case(seed, tier, idx):
     ro = st.get("outputs")
     outputs = [{"k": ro.randrange(0, n), "frac": ro.choice([0.0, 0.5, 0.25, ro.random()])}
                for _ in range(ro.choice([0, 1, 2, 4]))]
-    return {"solver": solver, "sde": spec, "dtype": dtype, "t0": fx(t0), "dt": fx(dt), "T": fx(T),
+    # round 3: what "only returned state survives" means is varied too. `durable`: the checkpoint goes through a
+    # serialisation round trip (a restart in another process: no tensor identity, no aliasing survives); `fresh_sde`:
+    # every attempt gets a newly built SDE object (state parked on the user's object does not survive either);
+    # `every`: restart at every grid point; `entry`: all calls through sdeint_adjoint (forward pass);
+    # `list_ts`: chunk output times handed over as a Python list.
+    r3 = st.get("round3")
+    every = r3.random() < 0.08
+    if every:
+        cuts = list(range(1, n))
+    extra3 = {"durable": "pickle" if r3.random() < 0.35 else "alias", "fresh_sde": r3.random() < 0.35,
+              "entry": "sdeint_adjoint" if r3.random() < 0.15 else "sdeint", "list_ts": r3.random() < 0.15}
+    return {"solver": solver, "sde": spec, "dtype": dtype, "t0": fx(t0), "dt": fx(dt), "T": fx(T), **extra3,
             "bm": "real" if rs.random() < 0.25 else "stub", "bm_seed": rs.randrange(1 << 30),
             "ts_dtype": rs.choice(["same", "same", "same", "float64", "float32"]),
             "adaptive_only": rs.choice([None, None, None, {"dt_min": 0.2}, {"dt_min": 10 * dt, "rtol": 1e-2}]),
@@ -141,8 +154,9 @@ def run_case(case, keep_log=False):
             try:
                 with torch.no_grad():
                     dtkw = {} if case.get("omit_dt") else {"dt": dt}
-                    out = torchsde.sdeint(sde, y, ts, bm=rec, method=solver["method"], extra=True,
-                                          extra_solver_state=extra_state, logqp=logqp, **dtkw, **kw)
+                    fn = torchsde.sdeint_adjoint if case.get("entry") == "sdeint_adjoint" else torchsde.sdeint
+                    out = fn(sde, y, ts, bm=rec, method=solver["method"], extra=True,
+                             extra_solver_state=extra_state, logqp=logqp, **dtkw, **kw)
                     if logqp:
                         ys_, lr_, ex_ = out
                         lrs[tag] = (ts, lr_)
@@ -193,15 +207,23 @@ def run_case(case, keep_log=False):
         sde = stubs.make_sde(spec, case["dtype"])
         y = y0
         extra_state = None
+        probes["durable_pickle"] = int(case.get("durable") == "pickle")
+        probes["fresh_sde_per_attempt"] = int(bool(case.get("fresh_sde")))
+        probes["via_sdeint_adjoint"] = int(case.get("entry") == "sdeint_adjoint")
+        probes["restart_at_every_grid_point"] = int(len(chunks) == n and n >= 3)
         surviving = []
         crash_pat = []
         for ci, (a, b) in enumerate(chunks):
             ga, gb = grid[a], grid[b]
             inner_outs = [t for t in outs if ga < t < gb]
             ts_c = torch.tensor([ga] + inner_outs + [gb], dtype=tts)
+            ts_arg = [float(t) for t in ts_c] if (case.get("list_ts") and tts == tdt) else ts_c
+            probes["chunk_ts_as_list"] += int(ts_arg is not ts_c)
             pending = [c for c in case["crashes"] if c["chunk"] == ci]
             while True:
                 rec = stubs.make_recorder(inner)
+                if case.get("fresh_sde"):
+                    sde = stubs.make_sde(spec, case["dtype"])  # nothing parked on the user's object survives
                 crash = pending.pop(0) if pending else None
                 if crash is not None:
                     if crash["peer"] == "f":
@@ -212,7 +234,7 @@ def run_case(case, keep_log=False):
                         rec.crash_at = crash["at"]
                 n_attempts += 1
                 try:
-                    ys_c, extra_c = call(sde, rec, ts_c, y, extra_state, f"chunk{ci}")
+                    ys_c, extra_c = call(sde, rec, ts_arg, y, extra_state, f"chunk{ci}")
                 except SimCrash:
                     probes["crash_fired_" + crash["peer"]] += 1
                     crash_pat.append(f"{ci}{crash['peer']}")
@@ -254,6 +276,9 @@ def run_case(case, keep_log=False):
             if len(extra_c) > 0:
                 probes["extra_state_carried"] = 1
             extra_state = extra_c
+            if case.get("durable") == "pickle":
+                # the checkpoint as a restarted process would see it: bytes written, bytes read
+                y, extra_state = pickle.loads(pickle.dumps((y, tuple(extra_state))))
         if not torch.equal(y, ys_ref[-1]):
             raise Violation("final_state_differs", {"err": bm.maxabs(y - ys_ref[-1]), "chunks": len(chunks)}, "final")
         if logqp:
@@ -313,7 +338,7 @@ def simplify(case):
             x = copy.deepcopy(case)
             x["crashes"][i]["at"] = c["at"] // 2
             yield x
-    for key, val in (("bm", "stub"), ("dtype", "float64"), ("fault_rate", 0.0), ("cache_size", 45), ("ts_dtype", "same"), ("logqp", False), ("bm_dtype", "same"), ("adaptive_only", None)):
+    for key, val in (("bm", "stub"), ("dtype", "float64"), ("fault_rate", 0.0), ("cache_size", 45), ("ts_dtype", "same"), ("logqp", False), ("entry", "sdeint"), ("durable", "alias"), ("fresh_sde", False), ("list_ts", False), ("bm_dtype", "same"), ("adaptive_only", None)):
         if case.get(key) != val:
             c = copy.deepcopy(case)
             c[key] = val
